@@ -203,7 +203,12 @@ func partio(c *hx.Ctx) {
 			before := d.Clone()
 			// ---- ReadContents first
 			var out bytes.Buffer
+			var reqs []string
+			d.ReadHook = func(off int64, n int) { reqs = append(reqs, fmt.Sprintf("%d:%d", off, n)) }
 			rn, rerr := p.ReadContents(d, &out)
+			d.ReadHook = nil
+			c.Case(id+"/rd", "partio.read", fmt.Sprintf("start=%d", startB), fmt.Sprintf("size=%d", size), fmt.Sprintf("pss=%d", g.pss), fmt.Sprintf("dev=%d", d.Size()))
+			c.Impl(id+"/rd", "rs="+strings.Join(reqs, ","))
 			want := before.Bytes(startB, int(size))
 			if rerr != nil || rn != size || !bytes.Equal(out.Bytes(), want) {
 				tag := "-"
